@@ -14,7 +14,7 @@ Core-only: links as a native executable.
 open Enc
 
 def dispatch (op : String) (args : List String) : Option (String × String × String) :=
-  if op.startsWith "ascii." then Driver.Ascii.handle op args
+  if op.startsWith "ascii." || op.startsWith "asmascii." then Driver.Ascii.handle op args
   else if op == "proto.msgrewrite" then Driver.ProtoRewrite.handle op args
   else if op.startsWith "proto." then Driver.Proto.handle op args
   else if op.startsWith "iso." then Driver.Iso.handle op args
